@@ -2,8 +2,10 @@
    model (Marshal/Model.v, Marshal/ModelRefactor.v), print.
 
    <id> unm <lim hex> <budget hex> <hex bytes>   -> val <cst> <used> <hex marshal> | nil <used> | err <class> <used> | fatal <req> | fuel
-   <id> dumpu <idx hex> <unit>                   -> ok <hex bytes> <cst of the refactored code> | panic | unsup | fuel
+   <id> unit <unit>                              -> ok            (remembers the unit for the dumpu lines that follow)
+   <id> dumpu <idx hex>                          -> ok <hex bytes> <cst of the refactored code> | panic | unsup | fuel
    <id> dumpt <cst>                              -> the same for a code with its own constants
+   <id> load <lim hex> <budget hex> <hex bytes>  -> fun <upvalue cells> | notfun | err <class> | gopanic | fatal <req> | fuel
    <id> mar <cst>                                -> ok <hex bytes>                                     *)
 open Model
 open Proto
@@ -44,7 +46,7 @@ let rec cst () : cst =
   | 'C' -> let (h, ks) = head_with (fun () -> let n = count () in many n cst) in KCode (h, ks)
   | _ -> failwith ("bad constant token " ^ t)
 
-(* X entries (nil/bool: never referenced) become a string no opcode can name; they keep the indices aligned *)
+(* X entries (nil/bool) cannot occur: the compiler inlines them; the driver refuses them *)
 let ucst () : ucst =
   let t = next () in
   match t.[0] with
@@ -85,6 +87,8 @@ let show_r = function
   | ROk k -> "ok " ^ hexbytes (marshal k) ^ " " ^ cst_str k
   | RPanic -> "panic" | RUnsup -> "unsup" | ROutOfFuel -> "fuel"
 
+let cur_unit : ucst list ref = ref []
+
 let () =
   iter_lines (fun line ->
     match split_on ' ' line with
@@ -96,12 +100,23 @@ let () =
         | GErr (e, u) -> "err " ^ err_str e ^ " " ^ hex_of_z u
         | GCrash r -> "fatal " ^ hex_of_z r
         | GOutOfFuel -> "fuel"))
-    | [id; "dumpu"; idx; unit] ->
+    | [id; "load"; lim; budget; data] ->
+      print_endline (id ^ " " ^ (match load_binary (z_of_hex lim) (z_of_hex budget) (zbytes data) with
+        | LFun (_, nup) -> "fun " ^ hex_of_z nup
+        | LNotFunction -> "notfun"
+        | LErr e -> "err " ^ err_str e
+        | LPanic -> "gopanic"
+        | LCrash r -> "fatal " ^ hex_of_z r
+        | LOutOfFuel -> "fuel"))
+    | [id; "unit"; unit] ->
       start unit;
       (match next () with "U" -> () | _ -> failwith "unit expected");
       let n = count () in
-      let u = many n ucst in
-      print_endline (id ^ " " ^ show_r (refactor_unit (nat_of_int (n + 1)) u (z_of_hex idx)))
+      cur_unit := many n ucst;
+      print_endline (id ^ " ok")
+    | [id; "dumpu"; idx] ->
+      let u = !cur_unit in
+      print_endline (id ^ " " ^ show_r (refactor_unit (nat_of_int (List.length u + 1)) u (z_of_hex idx)))
     | [id; "dumpt"; t] ->
       start t;
       print_endline (id ^ " " ^ show_r (refactor_cst (cst ())))
